@@ -58,8 +58,10 @@ type analyzer struct {
 	pkgs      []*packages.Package
 	callees   map[funcKey]map[funcKey]bool // static call graph over goflow functions
 	bodyOf    map[funcKey]bool
-	streamy   map[funcKey]bool        // consumes uuid / clock / random stream (transitively)
-	methods   map[string][]funcKey    // goflow methods by name (for interface calls)
+	streamy   map[funcKey]bool          // consumes uuid / clock / random stream (transitively)
+	methods   map[string][]funcKey      // goflow methods by name (for interface calls)
+	decls     map[funcKey]*ast.FuncDecl // bodies, to look into small helpers
+	declInfo  map[funcKey]*types.Info
 	fninfo    map[*types.Func]*fnInfo // side-effect summaries (purity.go)
 	uses      map[funcKey]int         // references (calls and method values) per function, non-test goflow code
 	ifaceUses map[string]int          // references to interface methods, by method name
@@ -160,8 +162,8 @@ func main() {
 			sep = ""
 		}
 		fmt.Fprintf(&sb, "  (* %s  %s  %s *)\n", s.Pos, s.Kind, safeWords(strings.ReplaceAll(s.MapType, "*)", "* )")))
-		fmt.Fprintf(&sb, "  {| s_pkg := %s; s_func := %s; s_ord := %d; s_callers := %d; s_effects := [%s] |}%s\n",
-			coqString(s.Pkg), coqString(s.Func), s.Ord, s.Callers, strings.Join(s.Effects, "; "), sep)
+		fmt.Fprintf(&sb, "  {| s_pkg := %s; s_func := %s; s_ord := %d; s_maptype := %s; s_callers := %d; s_effects := [%s] |}%s\n",
+			coqString(s.Pkg), coqString(s.Func), s.Ord, coqString(s.MapType), s.Callers, strings.Join(s.Effects, "; "), sep)
 	}
 	sb.WriteString("].\n\n")
 	sb.WriteString("(* flows/definition/migrations: the versions passed to registerMigration, in source order *)\n")
@@ -472,6 +474,12 @@ func (a *analyzer) buildCallGraph() {
 					continue
 				}
 				a.bodyOf[obj] = true
+				if a.decls == nil {
+					a.decls = map[funcKey]*ast.FuncDecl{}
+					a.declInfo = map[funcKey]*types.Info{}
+				}
+				a.decls[obj] = fd
+				a.declInfo[obj] = p.TypesInfo
 				if fd.Recv != nil {
 					a.methods[obj.Name()] = append(a.methods[obj.Name()], obj)
 				}
@@ -1547,19 +1555,9 @@ func (c *loopCtx) sortedAfter(target string) string {
 	return best
 }
 
-func (c *loopCtx) sortCallKind(ce *ast.CallExpr, target string) string {
-	fn := calleeFunc(c.info, ce)
-	if fn == nil || fn.Pkg() == nil || len(ce.Args) == 0 {
-		return ""
-	}
-	arg := ast.Unparen(ce.Args[0])
-	// sort.Sort(byX(target))
-	if conv, ok := arg.(*ast.CallExpr); ok && len(conv.Args) == 1 {
-		if tv, ok := c.info.Types[conv.Fun]; ok && tv.IsType() {
-			arg = ast.Unparen(conv.Args[0])
-		}
-	}
-	if types.ExprString(arg) != target {
+// libSortKind: the sorting functions of the standard library, uniformly
+func libSortKind(fn *types.Func) string {
+	if fn == nil || fn.Pkg() == nil {
 		return ""
 	}
 	p, n := fn.Pkg().Path(), fn.Name()
@@ -1574,4 +1572,89 @@ func (c *loopCtx) sortCallKind(ce *ast.CallExpr, target string) string {
 		return "SortBy"
 	}
 	return ""
+}
+
+// helperSortKind: the slice is handed to an unexported helper of the same package whose FIRST statement that
+// mentions the corresponding parameter sorts it (joinSorted(lines): slices.Sort(lines); return strings.Join(..))
+func (c *loopCtx) helperSortKind(fn *types.Func, ce *ast.CallExpr, target string) string {
+	fd := c.a.decls[fn.Origin()]
+	info := c.a.declInfo[fn.Origin()]
+	if fd == nil || info == nil || fn.Exported() || fd.Type.Params == nil {
+		return ""
+	}
+	idx := -1
+	for i, a := range ce.Args {
+		if types.ExprString(ast.Unparen(a)) == target {
+			idx = i
+		}
+	}
+	if idx < 0 {
+		return ""
+	}
+	var param types.Object
+	k := 0
+	for _, f := range fd.Type.Params.List {
+		for _, id := range f.Names {
+			if k == idx {
+				param = info.Defs[id]
+			}
+			k++
+		}
+	}
+	if param == nil {
+		return ""
+	}
+	for _, st := range fd.Body.List {
+		mentions := false
+		ast.Inspect(st, func(n ast.Node) bool {
+			if id, ok := n.(*ast.Ident); ok && info.Uses[id] == param {
+				mentions = true
+			}
+			return true
+		})
+		if !mentions {
+			continue
+		}
+		es, ok := st.(*ast.ExprStmt)
+		if !ok {
+			return ""
+		}
+		sc, ok := es.X.(*ast.CallExpr)
+		if !ok || len(sc.Args) == 0 {
+			return ""
+		}
+		arg := ast.Unparen(sc.Args[0])
+		if conv, ok := arg.(*ast.CallExpr); ok && len(conv.Args) == 1 {
+			if tv, ok := info.Types[conv.Fun]; ok && tv.IsType() {
+				arg = ast.Unparen(conv.Args[0])
+			}
+		}
+		if id, ok := arg.(*ast.Ident); !ok || info.Uses[id] != param {
+			return ""
+		}
+		return libSortKind(calleeFunc(info, sc))
+	}
+	return ""
+}
+
+func (c *loopCtx) sortCallKind(ce *ast.CallExpr, target string) string {
+	fn := calleeFunc(c.info, ce)
+	if fn == nil || fn.Pkg() == nil || len(ce.Args) == 0 {
+		return ""
+	}
+	if strings.HasPrefix(fn.Pkg().Path(), modPath) {
+		return c.helperSortKind(fn, ce, target)
+	}
+	arg := ast.Unparen(ce.Args[0])
+
+	// sort.Sort(byX(target))
+	if conv, ok := arg.(*ast.CallExpr); ok && len(conv.Args) == 1 {
+		if tv, ok := c.info.Types[conv.Fun]; ok && tv.IsType() {
+			arg = ast.Unparen(conv.Args[0])
+		}
+	}
+	if types.ExprString(arg) != target {
+		return ""
+	}
+	return libSortKind(fn)
 }
